@@ -23,7 +23,7 @@ from liquid.analyze_tags import TagAnalysis
 from liquid.exceptions import LiquidError
 from liquid.token import TOKEN_COMMENT, TOKEN_CONTENT, TOKEN_DOC, TOKEN_EXPRESSION, TOKEN_OUTPUT, TOKEN_TAG, Token
 
-from vf.hx import excluded, finish
+from vf.hx import cbool, cint, excluded, finish, untraced
 
 PROPERTY = "C21"
 PARTIALS = {"p": "partial {{ x }}", "base": "A{% block b %}base{% endblock %}Z"}
@@ -560,6 +560,55 @@ def c21_unclosed_src(k: int, extra: bool) -> bool:
 
 DETAIL["c21_unclosed_src"] = lambda k, extra: {"source": USRC[k], "result": unclosed_src(extra, k)}
 CONDITIONS.append({"fn": "c21_unclosed_src", "quick": 40, "thorough": 100, "sel_only": True})
+
+
+# every sequence of up to 5 tags over a pool of openings, end tags and inner tags: an opening with no end tag of its
+# own name anywhere after it has no end tag and must be reported, at its own position. The solver selects the first
+# three tags (8^3 paths); the body runs every choice of the last two on the plain interpreter.
+GPOOL = ["if", "for", "case", "unless", "endif", "endfor", "endcase", "else"]
+GOPEN = ("if", "for", "case", "unless")
+
+
+def general_missing(extra, names):
+    toks = build([(TOKEN_TAG, n) for n in names])
+    try:
+        a = TagAnalysis(env=env_of(extra), name="t", tokens=toks)
+    except Exception as e:
+        return [("ERR", type(e).__name__)]
+    out = []
+    for p, n in enumerate(names):
+        if n in GOPEN and ("end" + n) not in names[p + 1:]:
+            if toks[p].start_index not in [sp.index for sp in a.unclosed_tags.get(n, [])]:
+                out.append((p, n))
+    return out
+
+
+def general_sweep(extra, a, b, c):
+    bad = []
+    for d in [None] + GPOOL:
+        for e in [None] + GPOOL:
+            if d is None and e is not None:
+                continue
+            names = [x for x in (GPOOL[a], GPOOL[b], GPOOL[c], d, e) if x is not None]
+            miss = general_missing(extra, names)
+            if miss:
+                bad.append((names, miss))
+    return bad
+
+
+def c21_unclosed_general(a: int, b: int, c: int, extra: bool) -> bool:
+    """
+    pre: 0 <= a <= 7 and 0 <= b <= 7 and 0 <= c <= 7
+    post: _
+    """
+    if excluded("c21_unclosed_general", locals()):
+        return True
+    a, b, c, extra = cint(a, 0, 7), cint(b, 0, 7), cint(c, 0, 7), cbool(extra)
+    return finish(untraced(lambda: not general_sweep(extra, a, b, c)))
+
+
+DETAIL["c21_unclosed_general"] = lambda a, b, c, extra: {"unreported": general_sweep(extra, a, b, c)[:3]}
+CONDITIONS.append({"fn": "c21_unclosed_general", "quick": 60, "thorough": 120, "sel_only": True})
 
 
 # tags written as lines of a {% liquid %} tag: the template lexer hands them over as one expression token
